@@ -7,6 +7,7 @@ call changes the structure of U (nodes, edges, members / tail+head), the same ca
 must raise the library's error and leave F completely unchanged; if it does not change
 U it must not change F either.
 """
+import copy as _copy
 import inspect
 import random as _random
 
@@ -100,7 +101,7 @@ def create_using_calls(cls, rng):
 
 def floors(tier):
     return {"twin-comparisons": 8000, "changed-unfrozen-twin": 3000, "frozen-raised-XGIError": 3000, "mutators-discovered>=40": 1, "unprobed<=3": 1,
-            "assert:is_frozen": 300, "assert:subhypergraph-frozen": 200, "assert:frozen-copy-editable": 300, "subhypergraph:empty-node-selection": 30}
+            "assert:is_frozen": 300, "assert:subhypergraph-frozen": 200, "assert:frozen-copy-editable": 300, "subhypergraph:empty-node-selection": 30, "close:input-not-downward-closed": 20}
 
 
 def make_net(rng, cls):
@@ -269,12 +270,26 @@ def run_case(mon, kind, idx, rng):
         # the dual of a complex is built as a complex (a node of degree d becomes a d-simplex with 2^d faces):
         # keep the input small enough for the call to finish
         N = _small_complex(rng, gen.npool[:5])
+    twin = lambda net: net.copy()  # noqa: E731
+    if cls == "SimplicialComplex" and m == "close" and rng.random() < 0.7:
+        # close() only edits a complex that is not downward closed; the inherited public rewiring methods produce such complexes
+        # (copy() would close them again, a deep copy does not)
+        _random.seed(rng.randint(0, 10 ** 6))
+        for _ in range(6):
+            try:
+                N.random_edge_shuffle()
+            except Exception:
+                break
+            if "missing-face" in snap.inv_simplicial(N):
+                mon.note("close:input-not-downward-closed")
+                twin = _copy.deepcopy
+                break
     try:
         op = op_for(gen, N, cls, m, rng)
     except KeyError:
         mon.note(f"unprobed:{cls}.{m}")
         return
-    U, F = N.copy(), N.copy()
+    U, F = twin(N), twin(N)
     F.freeze()
     s0 = snap.structure(U)
     full0 = snap.snap(F)
